@@ -858,6 +858,7 @@ func main() {
 	genLayouts(p, out)
 	genConsts(p, repo, out)
 	genHandlers(p, out)
+	genLocks(p, repo, out)
 }
 
 func genLayouts(p *pkgInfo, out string) {
